@@ -76,7 +76,7 @@ fn set_field(s: &mut Snap, field: &str, class: usize) {
             s.lat = if class == 0 { 0f64.to_bits() } else { 47.5f64.to_bits() };
         }
         "dist" => s.dist = [None, Some(5.0f64), Some(10.2), Some(10.2), Some(10.9), Some(300.0)][class].map(f64::to_bits),
-        "category" => s.category = [(0, 0), (2, 3), (4, 3), (4, 3), (4, 5), (4, 7)][class],
+        "category" => s.category = [(0, 0), (1, 6), (2, 7), (2, 7), (3, 0), (4, 1)][class],
         _ => {}
     }
 }
